@@ -127,6 +127,20 @@ def build(rng, profile="full", **kw):
                 params = ["1", "%.3f" % rng.uniform(0.3, 0.5), str(rng.randint(100, 999))]
                 spec["explicit"].append({"sec": "bonds", "atoms": [i, j], "params": params})
                 extra = "[ link ]\n[ molmeta ]\nby_atom_id true\n[ bonds ]\n%d %d %s\n" % (i, j, " ".join(params))
+                if natoms >= 5 and rng.random() < 0.5:
+                    # a second bond in the same explicit link, between another pair of atoms
+                    for _try in range(10):
+                        i2 = rng.randrange(1, natoms)
+                        j2 = rng.randrange(i2 + 1, natoms + 1)
+                        if {i2, j2} != {i, j}:
+                            p2 = ["1", "%.3f" % rng.uniform(0.3, 0.5), str(rng.randint(100, 999))]
+                            if rng.random() < 0.5:
+                                spec["explicit"].append({"sec": "bonds", "atoms": [i2, j2], "params": p2})
+                                extra += "%d %d %s\n" % (i2, j2, " ".join(p2))
+                            else:
+                                spec["explicit"].insert(len(spec["explicit"]) - 1, {"sec": "bonds", "atoms": [i2, j2], "params": p2})
+                                extra = extra.replace("[ bonds ]\n", "[ bonds ]\n%d %d %s\n" % (i2, j2, " ".join(p2)))
+                            break
                 files = [(n, (t + extra) if n == "case.ff" else t) for n, t in files]
                 ff_extra = extra
     descr = {"layout": layout, "blocks": [(b["name"], b["syntax"], len(b["atoms"]), b["nrexcl"]) for b in blocks],
